@@ -1,4 +1,5 @@
 import CssVerif.Lib.Proto
+import CssVerif.Gen.C19Safe
 /-!
 # K7 (URLs) — model of `cssutils/__init__.py:183-415` and of the library functions it calls
 
@@ -298,14 +299,18 @@ def utf8 (c : Nat) : Except Err (List Nat) :=
 
 def hexDigitUp (n : Nat) : Nat := if n < 10 then 0x30 + n else 0x41 + (n - 10)
 
-/-- `_ALWAYS_SAFE` (`parse.py:813`) plus the `safe='/%'` of `Replacer.__call__` -/
+/-- the `safe` argument of `quote` in `Replacer.__call__` (now `"/%:@!$&'()*+,;="`), regenerated from the source
+into `Gen/C19Safe.lean` on every run -/
+def replacerSafe (b : Nat) : Bool := CssVerif.Gen.C19.replacerSafeChars.contains b
+
+/-- `_ALWAYS_SAFE` (`parse.py:813`) plus that `safe` -/
 def quoteSafe (b : Nat) : Bool :=
-  isAsciiAlpha b || isDigit b || b = 0x5F || b = 0x2E || b = 0x2D || b = 0x7E || b = cSlash || b = cPct
+  isAsciiAlpha b || isDigit b || b = 0x5F || b = 0x2E || b = 0x2D || b = 0x7E || replacerSafe b
 
 /-- `_Quoter.__missing__` (`parse.py:843-847`) -/
 def quoteByte (b : Nat) : Str := if quoteSafe b then [b] else [cPct, hexDigitUp (b / 16), hexDigitUp (b % 16)]
 
-/-- `urllib.parse.quote(s, safe='/%')` (`parse.py:849-950`) -/
+/-- `urllib.parse.quote(s, safe="/%:@!$&'()*+,;=")` (`parse.py:849-950`) -/
 def quote : Str → Except Err Str
   | [] => .ok []
   | c :: cs =>
@@ -316,33 +321,68 @@ def quote : Str → Except Err Str
       | .error e => .error e
       | .ok r => .ok (bs.flatMap quoteByte ++ r)
 
-/-! ## Part 1d — `cssutils.Replacer` (`__init__.py:271-295`) -/
+/-! ## Part 1d — `cssutils.Replacer` (`__init__.py:286-338`) -/
 
-/-- `Replacer.extract_base` (`__init__.py:291-295`) -/
+/-- `Replacer.extract_base` -/
 def extractBase (uri : Str) : Except Err Str :=
   match urlsplit uri with
   | .error e => .error e
   | .ok s => .ok (psplit s.path).1
 
-/-- `Replacer.__call__` with `self.base = base` (`__init__.py:279-289`) -/
-def replacerCall (base uri : Str) : Except Err Str :=
+/-- what `Replacer.__init__` keeps of the @import href: the directory of its path, and scheme, host, path and
+query of the imported sheet itself -/
+structure ReplacerState where
+  base : Str
+  scheme : Str
+  location : Str
+  path : Str
+  query : Str
+  deriving Repr
+
+/-- `Replacer.__init__(base)` -/
+def mkReplacerState (href : Str) : Except Err ReplacerState :=
+  match extractBase href with
+  | .error e => .error e
+  | .ok base =>
+    match urlsplit href with
+    | .error e => .error e
+    | .ok s => .ok { base := base, scheme := s.scheme, location := s.netloc, path := s.path, query := s.query }
+
+/-- `Replacer.__call__(uri)` -/
+def replacerCall (r : ReplacerState) (uri : Str) : Except Err Str :=
   match urlsplit uri with
   | .error e => .error e
   | .ok s =>
-    if s.scheme ≠ [] ∨ s.netloc ≠ [] ∨ startsWith [cSlash] s.path then .ok uri      -- keep anything absolute
+    if s.scheme ≠ [] then .ok uri                                          -- keep anything absolute
+    else if s.netloc ≠ [] ∨ startsWith [cSlash] s.path then
+      -- relative to the scheme or host the sheet came from
+      if r.scheme = [] ∧ r.location = [] then .ok uri
+      else .ok (urlunsplit { scheme := r.scheme, netloc := if s.netloc ≠ [] then s.netloc else r.location,
+                             path := s.path, query := s.query, fragment := s.fragment })
     else
-      let pf := psplit s.path
-      let combined := normpath (pjoin base [pf.1, pf.2])
-      match quote combined with                                                    -- os.sep is '/'
+      let cq : Str × Str :=
+        if s.path = [] then
+          -- nothing or only a query or fragment: refers to the sheet itself
+          (r.path, if s.query ≠ [] then s.query else r.query)
+        else
+          let pf := psplit s.path
+          let combined := normpath (pjoin r.base [pf.1, pf.2])
+          -- normpath drops what says that a directory is meant
+          (if (pf.2 = [] ∨ pf.2 = dot ∨ pf.2 = dotdot) ∧ combined.getLast? ≠ some cSlash then combined ++ [cSlash]
+           else combined, s.query)
+      match quote cq.1 with                                                -- os.sep is '/'
       | .error e => .error e
-      | .ok path => .ok (urlunsplit { scheme := [], netloc := [], path := path, query := s.query,
-                                      fragment := s.fragment })
+      | .ok path =>
+        -- `if ':' in path.split('/', 1)[0]`: a first segment with a colon would be taken for a scheme
+        let path := if (path.takeWhile (· ≠ cSlash)).contains cColon then cDot :: cSlash :: path else path
+        .ok (urlunsplit { scheme := r.scheme, netloc := r.location, path := path, query := cq.2,
+                          fragment := s.fragment })
 
 /-- `Replacer(href)(uri)` -/
 def replacer (href uri : Str) : Except Err Str :=
-  match extractBase href with
+  match mkReplacerState href with
   | .error e => .error e
-  | .ok base => replacerCall base uri
+  | .ok r => replacerCall r uri
 
 /-! ## Part 2 — abstract sheets; `getUrls`, `replaceUrls` (`__init__.py:183-268`) -/
 
@@ -379,12 +419,20 @@ inductive Rule where
 
 abbrev Sheet := List Rule
 
-/-- `_uri_values(style)` (`__init__.py:215-221`), the `.uri` of each -/
-def Comp.uri? : Comp → Option Str
-  | .uri u => some u
-  | _ => none
+mutual
+/-- `_values` (`__init__.py:224-234`): a value, and after a function the values that are its arguments;
+here the `.uri` of those with `.type == 'URI'` -/
+def compUris : Comp → List Str
+  | .uri u => [u]
+  | .tok _ => []
+  | .fn _ args => compsUris args
+def compsUris : List Comp → List Str
+  | [] => []
+  | c :: cs => compUris c ++ compsUris cs
+end
 
-def uriValues (st : Style) : List Str := st.flatMap fun d => d.value.filterMap Comp.uri?
+/-- `_uri_values(style)` (`__init__.py:215-221`), the `.uri` of each -/
+def uriValues (st : Style) : List Str := st.flatMap fun d => compsUris d.value
 
 mutual
 /-- `_style_declarations(rule)` (`__init__.py:183-190`): the rule's own `style` first, then those of its `cssRules` -/
@@ -413,19 +461,27 @@ def getUrls (sheet : Sheet) : List Str :=
 /-- result of a traversal that calls the replacer: the new object and the arguments of the calls, in call order -/
 abbrev Logged (α : Type) := Except Err (α × List Str)
 
-/-- `value.uri = replacer(value.uri)` for the URI items of one property value -/
-def replComps (f : Str → Except Err Str) : List Comp → Logged (List Comp)
-  | [] => .ok ([], [])
-  | .uri u :: cs =>
+mutual
+/-- `value.uri = replacer(value.uri)` for one item of a property value, or of a function -/
+def replComp (f : Str → Except Err Str) : Comp → Logged Comp
+  | .uri u =>
     match f u with
     | .error e => .error e
-    | .ok v => match replComps f cs with
-      | .error e => .error e
-      | .ok r => .ok (.uri v :: r.1, u :: r.2)
-  | c :: cs =>
-    match replComps f cs with
+    | .ok v => .ok (.uri v, [u])
+  | .tok t => .ok (.tok t, [])
+  | .fn n args =>
+    match replComps f args with
     | .error e => .error e
-    | .ok r => .ok (c :: r.1, r.2)
+    | .ok r => .ok (.fn n r.1, r.2)
+def replComps (f : Str → Except Err Str) : List Comp → Logged (List Comp)
+  | [] => .ok ([], [])
+  | c :: cs =>
+    match replComp f c with
+    | .error e => .error e
+    | .ok a => match replComps f cs with
+      | .error e => .error e
+      | .ok r => .ok (a.1 :: r.1, a.2 ++ r.2)
+end
 
 /-- `for value in _uri_values(style): value.uri = replacer(value.uri)` (`__init__.py:267-268`) -/
 def replStyle (f : Str → Except Err Str) : Style → Logged Style
@@ -632,9 +688,9 @@ def afterLast (p : Rule → Bool) : Sheet → Option Nat
 def insertAt (l : List Rule) (i : Nat) (x : Rule) : List Rule := l.take i ++ x :: l.drop i
 
 /-- `target.add(rule)` = `CSSStyleSheet.insertRule(rule, inOrder=True)` (`cssstylesheet.py:558-913`) on a sheet
-made by `resolveImports` (`href = thref`, no fetcher of its own, no owner rule).
+made by `resolveImports` (`href = thref`, the fetcher `who` of the sheet that is resolved, no owner rule).
 `@variables` rules are not modelled. -/
-def addRule (vfs : Vfs) (thref : Str) (target : Sheet) (rule : Rule) : Res Sheet :=
+def addRule (vfs : Vfs) (who : Who) (thref : Str) (target : Sheet) (rule : Rule) : Res Sheet :=
   match rule with
   | .charset enc =>                                             -- :669-676
     match target with
@@ -650,7 +706,7 @@ def addRule (vfs : Vfs) (thref : Str) (target : Sheet) (rule : Rule) : Res Sheet
     if found then ⟨.ok (insertAt target index rule), []⟩
     else
       -- :909-911 `rule._loadHref(rule.href)`: try again, now relative to this sheet and with ITS fetcher
-      let a := setHref (vfs.length + 2) vfs .dflt [thref] href media
+      let a := setHref (vfs.length + 2) vfs who [thref] href media
       match a.val with
       | .error e => ⟨.error e, a.log⟩
       | .ok r => ⟨.ok (insertAt target index r), a.log⟩
@@ -671,21 +727,21 @@ def addRule (vfs : Vfs) (thref : Str) (target : Sheet) (rule : Rule) : Res Sheet
   | _ => ⟨.ok (target ++ [rule]), []⟩                           -- :691 (not inOrder) falls through to :883-888
 
 /-- `for r in rules: target.add(r)` -/
-def addAll (vfs : Vfs) (thref : Str) (target : Sheet) : List Rule → Res Sheet
+def addAll (vfs : Vfs) (who : Who) (thref : Str) (target : Sheet) : List Rule → Res Sheet
   | [] => ⟨.ok target, []⟩
   | r :: rs =>
-    let a := addRule vfs thref target r
+    let a := addRule vfs who thref target r
     match a.val with
     | .error e => ⟨.error e, a.log⟩
     | .ok t =>
-      let b := addAll vfs thref t rs
+      let b := addAll vfs who thref t rs
       ⟨b.val, a.log ++ b.log⟩
 
-/-- `MediaCombineDisallowed._combinable` (`__init__.py:348-350`) -/
+/-- `MediaCombineDisallowed._combinable`: comments and style rules; an @import still present after flattening is
+one that was kept and cannot go into @media -/
 def combinable : Rule → Bool
   | .comment _ => true
   | .style _ _ => true
-  | .imp .. => true
   | _ => false
 
 /-- `for r in importedSheet: media_proxy.add(r)` for rules that passed `_combinable`
@@ -706,30 +762,30 @@ def mediaAll : Str := cps "all"
 mutual
 /-- `resolveImports(sheet, target)` (`__init__.py:298-331`), the loop over `sheet.cssRules`;
 `thref` is `target.href` -/
-def resolveRules (vfs : Vfs) (thref : Str) (target : Sheet) : List Rule → Res Sheet
+def resolveRules (vfs : Vfs) (who : Who) (thref : Str) (target : Sheet) : List Rule → Res Sheet
   | [] => ⟨.ok target, []⟩
   | r :: rs =>
-    let a := resolveRule vfs thref target r
+    let a := resolveRule vfs who thref target r
     match a.val with
     | .error e => ⟨.error e, a.log⟩
     | .ok t =>
-      let b := resolveRules vfs thref t rs
+      let b := resolveRules vfs who thref t rs
       ⟨b.val, a.log ++ b.log⟩
 /-- one round of that loop; for an `@import`: `_resolve_import(rule, target)` (`__init__.py:353-399`) -/
-def resolveRule (vfs : Vfs) (thref : Str) (target : Sheet) : Rule → Res Sheet
+def resolveRule (vfs : Vfs) (who : Who) (thref : Str) (target : Sheet) : Rule → Res Sheet
   | .charset _ => ⟨.ok target, []⟩                                              -- :324-325
   | .imp href media found ihref sheet =>
-    if found = false then addRule vfs thref target (.imp href media found ihref sheet)   -- :356-363
+    if found = false then addRule vfs who thref target (.imp href media found ihref sheet)   -- :356-363
     else
-      let c := addRule vfs thref target (.comment (startComment href))          -- :366
+      let c := addRule vfs who thref target (.comment (startComment href))          -- :366
       match c.val with
       | .error e => ⟨.error e, c.log⟩
       | .ok t1 =>
         -- :370 importedSheet = resolveImports(rule.styleSheet): a new target with the imported sheet's href
-        let imported := resolveRules vfs ihref [] sheet
+        let imported := resolveRules vfs who ihref [] sheet
         match imported.val with
         | .error .hierarchyRequestErr =>                                       -- :371-377
-          let k := addRule vfs thref t1 (.imp href media found ihref sheet)
+          let k := addRule vfs who thref t1 (.imp href media found ihref sheet)
           ⟨k.val, c.log ++ imported.log ++ k.log⟩
         | .error e => ⟨.error e, c.log ++ imported.log⟩
         | .ok isheet =>
@@ -738,22 +794,23 @@ def resolveRule (vfs : Vfs) (thref : Str) (target : Sheet) : Rule → Res Sheet
           | .error e => ⟨.error e, c.log ++ imported.log⟩
           | .ok rebased =>
             if media = mediaAll then                                           -- :404-405, :394-396
-              let m := addAll vfs thref t1 rebased.1
+              let m := addAll vfs who thref t1 rebased.1
               ⟨m.val, c.log ++ imported.log ++ m.log⟩
             else if rebased.1.all combinable = false then                      -- :407, :385-392
-              let k := addRule vfs thref t1 (.imp href media found ihref sheet)
+              let k := addRule vfs who thref t1 (.imp href media found ihref sheet)
               ⟨k.val, c.log ++ imported.log ++ k.log⟩
             else
               match proxyAddAll [] rebased.1 with                              -- :394-396 with the proxy
               | .error e => ⟨.error e, c.log ++ imported.log⟩
               | .ok inner =>
-                let m := addRule vfs thref t1 (.media media inner)             -- :398-399
+                let m := addRule vfs who thref t1 (.media media inner)             -- :398-399
                 ⟨m.val, c.log ++ imported.log ++ m.log⟩
-  | r => addRule vfs thref target r                                             -- :328-329
+  | r => addRule vfs who thref target r                                             -- :328-329
 end
 
-/-- `cssutils.resolveImports(sheet)` for a sheet with `sheet.href = href` -/
-def resolveImports (vfs : Vfs) (href : Str) (sheet : Sheet) : Res Sheet :=
-  resolveRules vfs href [] sheet
+/-- `cssutils.resolveImports(sheet)` for a sheet with `sheet.href = href` and the fetcher `who`
+(the target sheet gets the fetcher of the sheet that is resolved; imported sheets inherit it) -/
+def resolveImports (vfs : Vfs) (who : Who) (href : Str) (sheet : Sheet) : Res Sheet :=
+  resolveRules vfs who href [] sheet
 
 end CssVerif.Urls
